@@ -67,38 +67,42 @@ theorem analyzeStep_spec [DecidableEq M] {g : Game P M} (hg : GameOK g) (hb : Ev
       | .done a' s' => s'.hasTable = false ∧ a'.st.canceled = false ∧ a'.st.depth = i ∧ Good g p a'
       | .cancelled _ => False) := by
   unfold analyzeStep
-  apply Sat.bind
   have hd : (i + 0).toNat = i.toNat := by simp
   have hl : Live g (i + 0).toNat p := by
     rw [hd]; exact hlive i.toNat (by omega) (by omega)
-  refine Sat.mono (root_exact hg hb hpr hnc hord p (i + 0) (by omega) hov hl a.ms (i + 0, false)
-    { s with st := { depth := i + 0 } } ⟨hs, rfl⟩) ?_
-  rintro ⟨⟨next, nv⟩, s1⟩ ⟨hnt, hv, hat⟩
-  dsimp only at hnt hv hat ⊢
-  obtain ⟨m, rest, c, hnext, hap, hval⟩ := hat
-  dsimp only at hnext hval
-  subst hnext
-  dsimp only
-  rw [load_nc hnc]
-  simp only [Bool.false_eq_true, if_false]
-  have hdep : s1.st.depth = i := by have := congrArg Prod.fst hnt.2; dsimp only at this; omega
-  have hgood : ∀ (ps bs : Nat), Good g p
-      { ms := m :: rest, v := nv, st := Stats.merge s1.st a.st, prevEval := ps, branchSum := bs } := by
-    intro ps bs
-    unfold Good
-    have h1 : (Stats.merge s1.st a.st).depth = i := hdep
+  have hroot := root_exact hg hb hpr hnc hord p (i + 0) (by omega) hov hl a.ms (i + 0, false)
+    { s with st := { depth := i + 0 } } ⟨hs, rfl⟩
+  cases hr : pvSearch g cfg.opts o 0 p (i + 0) a.ms (Facts.minEval - 1) (Facts.maxEval + 1)
+      { s with st := { depth := i + 0 } } with
+  | error e => exact Sat.error
+  | ok r =>
+    obtain ⟨⟨next, nv⟩, s1⟩ := r
+    obtain ⟨hnt, hv, hat⟩ := hroot _ hr
+    dsimp only at hnt hv hat
+    obtain ⟨m, rest, c, hnext, hap, hval⟩ := hat
+    dsimp only at hnext hval
+    subst hnext
+    apply Sat.ok
+    unfold iterEnd
     dsimp only
-    rw [h1]
-    have h2 : (i + 0).toNat = i.toNat := hd
-    rw [h2] at hv hval
-    exact ⟨hv, m, rest, c, rfl, hap, hval⟩
-  have hcan : (Stats.merge s1.st a.st).canceled = false := congrArg Prod.snd hnt.2
-  have hdm : (Stats.merge s1.st a.st).depth = i := hdep
-  repeat' split
-  all_goals first
-    | exact Sat.pure ⟨hnt.1, hcan, hdm, hgood _ _⟩
-    | exact Sat.pure (show LoopInv g cfg p (i + 1) _ _ from
-        ⟨hnt.1, by rw [hdm]; omega, hcan, fun _ => ⟨by omega, hgood _ _⟩⟩)
+    rw [load_nc hnc]
+    simp only [Bool.false_eq_true, if_false]
+    have hdep : s1.st.depth = i := by have := congrArg Prod.fst hnt.2; dsimp only at this; omega
+    have hcan : s1.st.canceled = false := congrArg Prod.snd hnt.2
+    have hgood : Good g p (iterAcc i a (m :: rest) nv { s1 with loads := s1.loads + 1 }) := by
+      unfold Good iterAcc
+      have h1 : (Stats.merge s1.st a.st).depth = i := hdep
+      dsimp only
+      rw [h1]
+      rw [hd] at hv hval
+      exact ⟨hv, m, rest, c, rfl, hap, hval⟩
+    have hdm : (iterAcc i a (m :: rest) nv { s1 with loads := s1.loads + 1 }).st.depth = i := hdep
+    have hcm : (iterAcc i a (m :: rest) nv { s1 with loads := s1.loads + 1 }).st.canceled = false := hcan
+    rcases iterDone_cases cfg 0 i a (m :: rest) nv { s1 with loads := s1.loads + 1 } with h | h
+    · rw [h]
+      exact ⟨hnt.1, by rw [hdm]; omega, hcm, fun _ => ⟨by omega, hgood⟩⟩
+    · rw [h]
+      exact ⟨hnt.1, hcm, hdm, hgood⟩
 
 theorem analyzeLoop_spec [DecidableEq M] {g : Game P M} (hg : GameOK g) (hb : EvalBounded g) {cfg : Cfg}
     (hpr : Precise cfg.opts) {o : Oracle M} (hnc : NoCancel o) (hord : OrderOK o)
@@ -159,10 +163,11 @@ theorem analyze_exact_nt [DecidableEq M] {g : Game P M} (hg : GameOK g) (hb : Ev
       v = negamax g st.depth.toNat p ∧
       ∃ m rest c, ms = m :: rest ∧ g.apply p m = .ok c ∧ v = -(negamax g (st.depth.toNat - 1) c)) := by
   unfold analyze
-  dsimp only
   have hget : ttGet { s with loads := 0, evals := 0, sorts := 0, rnds := 0 } (g.hash p) = .ok none := by
     unfold ttGet; simp [hs]
   rw [hget]
+  show Sat (analyzeFrom g cfg o p (seedOf none) { s with loads := 0, evals := 0, sorts := 0, rnds := 0 }) _
+  unfold analyzeFrom seedOf
   dsimp only
   have hfuel : cfg.depth + 1 ≤ (1 : Int) + ((cfg.depth - 0).toNat : Nat) := by omega
   have hinv : LoopInv g cfg p 1 (⟨[], 0, { depth := 0 }, 0, 0⟩ : ALoop M)
